@@ -592,6 +592,11 @@ def minimize_lbfgsb(
             else:
                 f0, f0_old, grad, G = update_fun_def(x, f0, f0_old, grad, X, G)
 
+                # We must check if the updated G satisfy the strong wolfe condition,
+                # also when a stop criterion ends the run right below: the result
+                # is built from X and G
+                X, G = make_X_and_G_respect_strong_wolfe(X, G, eps_SY, logger=logger)
+
                 # Check stop criterion: minimum objective function value (same
                 # order of the tests as without update_fun_def)
                 if is_f0_target_reached(f0 / sf.scaling_factor, _ftarget, istate):
@@ -601,9 +606,6 @@ def minimize_lbfgsb(
                 # objective function
                 elif is_f0_min_change_reached(f0, f0_old, ftol, istate):
                     break  # the while loop
-
-                # We must check if the updated G satisfy the strong wolfe condition
-                X, G = make_X_and_G_respect_strong_wolfe(X, G, eps_SY, logger=logger)
 
             mats = update_lbfgs_matrices(
                 x.copy(),  # copy otherwise x might be changed in X when updated
